@@ -527,7 +527,8 @@ def csv(xs):
 
 def new_lines(name, facts):
     f = facts or {"params": [], "gi": [], "si": [], "gl": [], "sl": [], "json": False, "jget": [], "jset": [], "jexp": []}
-    return {"params:" + name: csv(f["params"]), "gi:" + name: csv(f["gi"]), "si:" + name: csv(f["si"]),
+    # the NUMBER of constructor parameters (which fields become parameters under the `new` marks); their spelling is C02's subject
+    return {"nparams:" + name: str(len(f["params"])), "gi:" + name: csv(f["gi"]), "si:" + name: csv(f["si"]),
             "gl:" + name: csv(f["gl"]), "sl:" + name: csv(f["sl"]), "json:" + name: "true" if f["json"] else "false",
             "jget:" + name: csv(f["jget"]), "jset:" + name: csv(f["jset"]), "jexp:" + name: csv(f["jexp"])}
 
@@ -544,7 +545,8 @@ def merge_file_sexp(d):
             ["comments"] + [[c["pos"], c["end"], Q(norm_header(c["text"]) if i == 0 and d["header"] == c["text"] else tok(c["text"]))]
                             for i, c in enumerate(d["comments"])],
             ["imports"] + [[Q(i["name"]), Q(i["path"])] for i in d["imports"]],
-            ["decls"] + [["imp" if x["imp"] else "decl", x["pos"], x["end"], Q(tok(x["text"]))] for x in d["decls"]]]
+            ["decls"] + [["imp" if x["imp"] else "decl", x["pos"], x["end"], Q(tok(x["text"])), x["docpos"] if x.get("docpos", -1) >= 0 else "-"]
+                         for x in d["decls"]]]
 
 
 def merged_obs(d):
@@ -559,7 +561,7 @@ def merged_obs(d):
         k = next((j for j, x in enumerate(items) if x["pos"] <= c["pos"] <= x["end"]), None)
         if k is None:
             k = next((j for j, x in enumerate(items) if x["pos"] >= c["end"]), None)
-            if k is None or c["end"] + 1 != items[k]["pos"]:
+            if k is None or c["pos"] != items[k].get("docpos", -1):
                 orphans += 1
         if k is not None:
             cs[k].append(tok(c["text"]))
